@@ -114,6 +114,7 @@ type caseT struct {
 	PreArgs  []string `json:"preargs"`  // goderive arguments before the package path
 	PostArgs []string `json:"postargs"` // … and after it (PKGDIR is replaced by the case directory)
 	Tag     string   `json:"tag"`     // sub-class used in the violation class id (cause rather than plugin)
+	MustFail bool    `json:"mustfail"` // the run must NOT end with exit 0 (a call can never be generated for)
 	MustOK  bool     `json:"mustok"`  // well-typed and inside the supported grammar: exit 0, parses, type-checks
 	Files   []string `json:"files"`
 }
@@ -1313,6 +1314,45 @@ func timeout2(time int) time.Duration { return 0 }
 		src := "package PKGDIR\n\n" + v.decl + "\ntype T struct {\n\tB []byte\n\tS string\n\tF float64\n\tM map[string]int\n\tP *int\n}\n\nfunc Use(" + params("*T") + ") {\n\t" + body + "\n}\n"
 		add(caseT{Family: "diagnostics", Plugin: v.pl, What: "the package declares the name of a package the generated file imports: " + strings.ReplaceAll(strings.TrimSpace(v.decl), "\n", " "),
 			Call: fn, Names: []string{fn}, MustOK: true}, map[string]string{"u.go": src})
+	}
+	// a call that can never be resolved next to calls that are generated for: the run must fail and name it (F131)
+	for i, v := range []string{
+		"func B() uint64 { return deriveHash(undefinedVar) }",
+		"func B() bool { return deriveEqual(mystery(1), mystery(2)) }",
+		"func B(m map[ID]int) []ID { return deriveKeys(m) }",
+		"func B() []int { return deriveSort(deriveNoSuchPlugin([]int{1})) }",
+		"var late = deriveFmap(missingFunc, []int{1})",
+	} {
+		add(caseT{Family: "unresolved", What: fmt.Sprintf("an unresolvable call next to a good one (%d)", i), Call: "derive",
+			Names: []string{"deriveHash", "deriveEqual", "deriveKeys", "deriveSort", "deriveFmap", "cannot generate"}, UserBad: true, MustFail: true},
+			map[string]string{"u.go": "package PKGDIR\n\nfunc A(a, b []int) bool { return deriveEqualInts(a, b) }\n\nfunc C(a []string) []string { return deriveSortStrs(a) }\n\n" + v + "\n"})
+	}
+	// imported structs with unexported fields of unexported types (bytes.Buffer, strings.Builder, sync types …) inside the argument (F133)
+	for _, pl := range []string{"equal", "compare", "hash", "deepcopy", "clone", "gostring", "unique", "contains"} {
+		for _, ft := range []string{"*bytes.Buffer", "bytes.Buffer", "strings.Builder", "*strings.Builder", "sync.Mutex", "*sync.WaitGroup", "sync.Once", "time.Time", "*time.Timer", "big.Int", "*big.Float", "list.List", "regexp.Regexp", "[]*bytes.Buffer", "map[string]bytes.Buffer"} {
+			tp := pluginByName(pl)
+			fn := prefixes[pl] + "Std"
+			params, body := tp.call(fn)
+			at := tp.arg("*W")
+			src := "package PKGDIR\n\nimport (\n\t\"bytes\"\n\t\"container/list\"\n\t\"math/big\"\n\t\"regexp\"\n\t\"strings\"\n\t\"sync\"\n\t\"time\"\n)\n\nvar (\n\t_ bytes.Buffer\n\t_ list.List\n\t_ big.Int\n\t_ regexp.Regexp\n\t_ strings.Builder\n\t_ sync.Mutex\n\t_ time.Time\n)\n\ntype W struct {\n\tA int\n\tF " + ft + "\n}\n\nfunc Use(" + params(at) + ") {\n\t" + body + "\n}\n"
+			add(caseT{Family: "diagnostics", Plugin: pl, What: "a struct holding the standard library type " + ft, Call: fn,
+				Names: []string{fn, "unexported", "private", "Buffer", "Builder", "Mutex", "WaitGroup", "Once", "Time", "Timer", "Int", "Float", "List", "Regexp", "W", "any", "time.Location", "time.zone", "Location", "interface"}, Unsupp: true}, map[string]string{"u.go": src})
+		}
+	}
+	// a named type WITH METHODS and its unnamed twin are two argument types (F130)
+	for _, pl := range []string{"equal", "compare", "hash", "deepcopy", "clone", "gostring", "sort", "contains", "unique"} {
+		tp := pluginByName(pl)
+		fn := prefixes[pl] + "Twin"
+		params, body := tp.call(fn)
+		decl := "type L []int\n\nfunc (l L) Len() int { return len(l) }\n\ntype M map[string]int\n\nfunc (m M) Size() int { return len(m) }\n\ntype S struct {\n\tA L\n\tB []int\n\tC M\n\tD map[string]int\n}\n\n"
+		at := tp.arg("*S")
+		src := "package PKGDIR\n\n" + decl + "func Use(" + params(at) + ") {\n\t" + body + "\n}\n"
+		if pl == "equal" || pl == "compare" || pl == "hash" {
+			p2, b2 := tp.call(fn + "L")
+			p3, b3 := tp.call(fn + "U")
+			src += "\nfunc UseL(" + p2("L") + ") {\n\t" + b2 + "\n}\n\nfunc UseU(" + p3("[]int") + ") {\n\t" + b3 + "\n}\n"
+		}
+		add(caseT{Family: "twins", Plugin: pl, What: "a named type with methods and its unnamed twin side by side", Call: fn, Names: []string{fn, "L", "M", "S"}, Unsupp: true}, map[string]string{"u.go": src})
 	}
 	// the command line
 	okPkg := "package PKGDIR\n\nfunc Eq(a, b []int) bool { return deriveEqual(a, b) }\n"
